@@ -77,7 +77,7 @@ def expected_cells(cells):
     for e in cells:
         val = sum(Fraction(n, d) for n, d in e["v"])
         if val != 0:
-            exp[(TOKS[e["r"]] if isinstance(e["r"], int) else e["r"],
+            exp[(TOKS[e["r"]] if isinstance(e["r"], int) else "_".join(TOKS[t] for t in e["r"]),
                  e["b"] + "_" + (TOKS[e["c"]] if isinstance(e["c"], int) else e["c"]))] = val
     return exp
 
@@ -185,6 +185,35 @@ def run_multi(item):
             out.update(ok=False, fit_returns_self=False)
         M2 = m2.transform(X)
         bad2 = compare(exp, observed_cells(m2, M2))
+        if bad2 or M2.shape != M.shape:
+            out.update(ok=False, where_t="fit.transform", bad_t=bad2, shape_t=list(M2.shape))
+    return out
+
+
+def run_ngram(item):
+    C = _cls("ngram")
+    c, V = item["cfg"], item["V"]
+    kw = kwargs_for(c, V, False)
+    kw["ngram_size"] = item["N"]
+    kw.update(item.get("extra") or {})
+    X = docs_of(item["corpus"])
+    exp = expected_cells(item["cells"])
+    m = C(**kw)
+    M = m.fit_transform(X)
+    out = {"ok": True}
+    rid = {v: k for k, v in m.ngram_label_dictionary_.items()}
+    if M.shape[0] != len(rid):
+        out.update(ok=False, shape=list(M.shape))
+    bad = compare(exp, observed_cells(m, M, rid))
+    if bad:
+        out.update(ok=False, where="fit_transform", bad=bad)
+    if item.get("do_transform", True):
+        m2 = C(**kw)
+        if m2.fit(X) is not m2:
+            out.update(ok=False, fit_returns_self=False)
+        M2 = m2.transform(X)
+        rid2 = {v: k for k, v in m2.ngram_label_dictionary_.items()}
+        bad2 = compare(exp, observed_cells(m2, M2, rid2))
         if bad2 or M2.shape != M.shape:
             out.update(ok=False, where_t="fit.transform", bad_t=bad2, shape_t=list(M2.shape))
     return out
